@@ -46,7 +46,7 @@ ASSUMPTIONS = [
     "CPython 3.12 asyncio FIFO ready queue; one step = one `await asyncio.sleep(0)` of the driver",
     "the 20-line sequential model in this file and the history invariants are the specification",
 ]
-MINIMUMS = {"handoff_while_pending": 100, "cancel_after_handoff": 10, "monitor:model": 1000, "monitor:drain": 1000, "long_backlog_drains": 60, "finished_with_falsy_exception": 200, "bulk_backlogs_drained": 6, "producer_between_loop_runs": 7, "consumers_with_a_swallowed_cancellation": 4, "queues_cancelled_by_code_handling_another_exception": 100}
+MINIMUMS = {"handoff_while_pending": 100, "cancel_after_handoff": 10, "monitor:model": 1000, "monitor:drain": 1000, "long_backlog_drains": 60, "finished_with_falsy_exception": 200, "bulk_backlogs_drained": 6, "producer_between_loop_runs": 7, "consumers_with_a_swallowed_cancellation": 4, "queues_cancelled_by_code_handling_another_exception": 100, "consumption_handed_over_between_tasks": 8}
 JOBS = {"quick": 4, "thorough": 16}
 
 OPS = ("E1", "E3", "F", "FX", "C", "R", "X", "S")
@@ -509,6 +509,63 @@ async def run_bulk(R: Recorder, queue_cls: Any, n: int, via: str) -> None:
     R.monitor("reason-identity", terminal is reason, where={"mode": "bulk", "kind": "wrong-reason"}, detail=f"after the buffer the receive ended with {terminal!r}, the queue was finished with {reason!r}", case=case)
 
 
+async def run_handover(R: Recorder, queue_cls: Any, case: dict[str, Any]) -> None:
+    """consumption handed over from one task to another, one after the other (never two at a time): a task reads the first element(s) with
+    `async for ... break` / a receive that is timed out, and a second task - started while the first is still alive - goes on with
+    `async for` until the end. Still a single consumer at any moment: nothing lost, nothing refused."""
+    how, head, reason_kind = case["how"], case["head"], case["reason"]
+    q = queue_cls(*range(3))
+    received: list[Any] = []
+    outcome: list[Any] = []
+    reason = Boom("handover") if reason_kind == "exc" else None
+
+    async def rest() -> None:
+        try:
+            async for x in q:
+                received.append(x)
+            outcome.append("end")
+        except BaseException as exc:  # noqa: BLE001
+            outcome.append(exc)
+
+    async def producer() -> None:
+        for x in range(3, 6):
+            await asyncio.sleep(0)
+            q.enqueue(x)
+        await asyncio.sleep(0)
+        q.finish(reason) if reason is not None else q.finish()
+
+    try:
+        if how == "break":
+            n = 0
+            async for x in q:
+                received.append(x)
+                n += 1
+                if n >= head:
+                    break
+        else:
+            it = aiter(q)
+            for _ in range(3):
+                received.append(await anext(it))
+            try:
+                async with asyncio.timeout(0):  # a receive that has to wait is given up
+                    received.append(await anext(it))
+            except TimeoutError:
+                pass
+        prod = asyncio.get_running_loop().create_task(producer())
+        worker = asyncio.get_running_loop().create_task(rest())  # the first consumer (this task) is still alive, it just stopped consuming
+        await asyncio.gather(worker, prod)
+    except BaseException as exc:  # noqa: BLE001
+        outcome.append(exc)
+    R.case(case, nontrivial=True)
+    R.count("consumption_handed_over_between_tasks")
+    R.monitor("no-loss-no-dup-order", received == list(range(6)), where={"mode": "handover", "kind": "lost-or-refused", "how": how}, detail=f"received {received} (expected 0..5), then {outcome!r}", case=case)
+    want_end = reason is None and outcome == ["end"] or (reason is not None and len(outcome) == 1 and outcome[0] is reason)
+    R.monitor("reason-identity", bool(want_end), where={"mode": "handover", "kind": "wrong-reason", "how": how}, detail=f"the second consumer ended with {outcome!r}; the queue was finished with {reason!r}", case=case)
+
+
+HANDOVERS = [{"handover": True, "how": how, "head": head, "reason": rk} for how in ("break", "timed-out-receive") for head in (1, 2) for rk in ("end", "exc")]
+
+
 def run_between_runs(R: Recorder, queue_cls: Any, script: list[Any]) -> None:
     """the producer is plain synchronous code on the loop's own thread, acting while the loop is NOT running (between two
     run_until_complete calls) on a queue built for that loop: script = ["E", n] enqueue n | ["F"] / ["FX"] finish | ["R", k] run the loop and receive k"""
@@ -586,6 +643,9 @@ def run(R: Recorder, tier: str, seed: int, shard: int, nshards: int) -> None:
         for j, script in enumerate(STALE):
             if j % nshards == shard:
                 await run_stale_consumer(R, AsyncQueue, script)
+        for j, case in enumerate(HANDOVERS):
+            if j % nshards == shard:
+                await run_handover(R, AsyncQueue, case)
         for k, n in enumerate(BULK[tier]):
             for j, via in enumerate(("constructor", "one-enqueue", "chunks")):
                 if (k * 3 + j) % nshards == shard:
@@ -632,6 +692,12 @@ def replay(R: Recorder, case: dict[str, Any]) -> None:
             await run_stale_consumer(R, AsyncQueue, case["stale_consumer"])
 
         run_virtual(stale_main, max_iterations=10**6)
+        return
+    if "handover" in case:
+        async def handover_main(loop: asyncio.AbstractEventLoop) -> None:
+            await run_handover(R, AsyncQueue, case)
+
+        run_virtual(handover_main, max_iterations=10**6)
         return
     if "bulk" in case:
         async def bulk_main(loop: asyncio.AbstractEventLoop) -> None:
